@@ -198,9 +198,24 @@ CLAIMED.update({
             "libraries); claimed at the lowest level.", _FN_NOTE, "DESIGN.md 4.11, 5 (C12)", "functional"),
 })
 
+CLAIMED.update({
+    "C06": ("model_checking",
+            "TLA+ Render.tla: printer cell model (SGR state, combining marks) + two JSON pushdown acceptors building path "
+            "sets; acceptor model-checked on all short strings (RenderMC); real renderings validated by TLC (RenderTrace)",
+            "The raw output of JSONFormatter into Printer(ansi_color=True) is split lexically into cells; the TLA+ machine "
+            "classifies every character as kept / removed / inserted from the SGR background and the strike / under-plus "
+            "marks, feeds two JSON acceptors (from-view, to-view; commas optional, '->' outside strings is decoration, "
+            "escapes decoded), and accepts iff both views are well-formed, their path sets equal those the same acceptor "
+            "reads from json.dumps of the two documents, and marks are present exactly when the documents differ.",
+            "Trusted: the regular expression that separates SGR escapes from characters, json.dumps as reference "
+            "rendering, TLC. Cross-type numeric twins are rewritten to strings.", "DESIGN.md 4.10, 5 (C06)", "render"),
+})
+
 NOT_YET = "check not built yet in this round (planned: see DESIGN.md section 5)"
 
 ENGINES = [
+    {"name": "render", "path": "spec/Render.tla spec/RenderMC.tla spec/RenderTrace.tla props/c06.py", "serves_properties": ["C06"],
+     "kind_free_text": "TLA+ printer-cell machine with two JSON pushdown acceptors; real ANSI renderings validated by TLC"},
     {"name": "functional", "path": "spec/Functional.tla spec/FunctionalMC.tla spec/FunctionalTrace.tla harness/functional.py "
                                   "props/c07.py props/c08.py props/c09.py props/c12.py",
      "serves_properties": ["C07", "C08", "C09", "C12", "C14"],
